@@ -157,6 +157,8 @@ static RunOut execute(const Case &c, long fail_at)
 	L.fail_at = fail_at ? base + fail_at : 0;
 	pm::Table pm_;
 	sm::Table sm_;
+	struct pfx_record *reuse_reason = nullptr;
+	unsigned int reuse_n = 0;
 	auto contents_ok = [&](const std::string &after) {
 		long save = L.fail_at;
 		L.fail_at = 0; // observation itself must not be disturbed
@@ -206,15 +208,15 @@ static RunOut execute(const Case &c, long fail_at)
 		case 'v': {
 			Rec r = pfx_of(o.id, 0);
 			struct lrtr_ip_addr ip = to_addr(r.fam, r.a);
-			struct pfx_record *reason = nullptr;
-			unsigned int n = 0;
+			// the reason array of the previous validation is handed in again (the API reallocates / releases it)
+			struct pfx_record *&reason = reuse_reason;
+			unsigned int &n = reuse_n;
 			enum pfxv_state s = (enum pfxv_state)9;
 			int rc = pfx_table_validate_r(&pt, &reason, &n, 100 + o.src * 100, &ip, r.len, &s);
 			bool hit_now = L.failed && !failed_before;
 			if (rc == -1) { if (!hit_now) FAIL("C18:error-without-allocation-failure", tag + " failed without an allocation failure"); if (reason || n) FAIL("C18:reason-after-error", tag + " returned an error but left a reason array"); }
 			else if ((int)s != (int)pm_.validate(100 + o.src * 100, r.fam, r.a, r.len)) FAIL("C18:validate-after-failed-allocation", tag + " gives state " + std::to_string(s));
 			if (hit_now) out.hit = true;
-			lrtr_free(reason);
 			break;
 		}
 		case 'A': { Key k = key_of(o.id, o.src); struct spki_record lr = to_lib(k); int rc = spki_table_add_entry(st, &lr); settle(rc, sm_.s.count(k) ? -2 : 0, [&] { sm_.add(k); }); break; }
@@ -297,6 +299,7 @@ static RunOut execute(const Case &c, long fail_at)
 	}
 	L.fail_at = 0;
 	out.allocs = L.seq - base;
+	lrtr_free(reuse_reason);
 	pfx_table_free(&pt);
 	spki_table_free(st);
 	free(st);
